@@ -25,6 +25,11 @@ CLAIMS = {
    text="Sessions are interpreted one statement at a time; after each statement every name other than the statement's target must be bitwise unchanged, the set of names must match, the stated invalid classes must be errors, and any error must leave the whole store unchanged. The alias matrix enumerates every way y can be bound from x against every mutation of x for 8 value kinds.",
    note="For the target of a successful statement the model adopts the implementation's value. Random sessions are composed only from constructs that are isolation-clean on their own (aliasing define forms are exercised in the alias matrix, where each failing cell is an exactly listed known finding).",
    ref="6/C05"),
+ "C13": dict(
+   technique="runtime monitoring: differential oracle (Rust's correctly rounded str::parse, exact u128/i128 parsing, gcd reduction) over literal spellings generated from the specification grammar, cell sweep form x kind x magnitude x style",
+   text="Every literal is interpreted alone and its canonical value (kind and bits) is compared with the number the spelling denotes; out-of-range typed literals may only clamp to the kind bound or fail, a zero denominator must fail, and a valid in-range spelling must not be an error. Held on the spellings generated; digits are random inside each cell.",
+   note="Trusts Rust's float parser as the nearest-value oracle and the harness generator's reading of specification section 4.2 (underscores only inside float digit sequences; signed kinds via annotation).",
+   ref="6/C13"),
 }
 NOT_YET = "not claimed yet: the monitor for this property is still being built in this session (see DESIGN.md section 6 for the planned check)"
 
